@@ -89,6 +89,8 @@ var redos = []string{"same", "delete-page", "delete-others", "delete-all", "garb
 
 type qtyKey int
 
+type langKey string
+
 type cyc struct {
 	Name string
 	Next *cyc
@@ -252,6 +254,12 @@ func special(name string) any {
 		return map[uintptr]string{1: "a"}
 	case "map-int8-keys":
 		return map[int8]string{-1: "n", 1: "a", 127: "m"}
+	case "map-named-string-keys":
+		return map[langKey]string{"en": "a", "de": "b", "fr": "c"}
+	case "map-named-string-keys-any":
+		return map[langKey]any{"en": 1, "de": map[langKey][]int{"x": {1}, "y": {2}}, "": nil}
+	case "map-stringer-keys":
+		return map[fmt.Stringer]int{stringer{"a"}: 1, stringer{"b"}: 2}
 	case "map-named-int-keys":
 		return map[qtyKey]string{1: "a", 0: "z"}
 	case "map-bool-keys":
@@ -305,7 +313,7 @@ func special(name string) any {
 // Not in the domain: a map[string]any or []any that contains ITSELF. Printing such a value
 // overflows the stack inside the standard library's fmt (as in any Go program); pointer cycles
 // between structs - the realistic shape of cyclic data - are covered.
-var specials = []string{"cyclic-ptr", "cyclic-2", "cyclic-in-map", "cyclic-via-value-field", "cyclic-via-value-slice", "cyclic-via-interface", "cyclic-via-embedded", "cyclic-via-map-of-ptr", "cyclic-via-array", "cyclic-value-root", "embedded-nil-ptr", "embedded-nil-ptr-ptr", "slice-of-embedded-nil-ptr", "map-of-embedded-nil-ptr", "wrapped-embedded-nil-ptr", "panicking-stringer", "nil-url", "nil-valrecv-stringer", "slice-with-nil-stringer", "map-with-nil-stringers", "unexported", "unexported-ptr", "map-int-keys", "map-uint8-keys", "map-uint-keys", "map-uint64-keys", "map-uintptr-keys", "map-int8-keys", "map-named-int-keys", "map-bool-keys", "map-float-keys", "map-rune-byte-keys", "map-struct-keys", "map-any-keys", "func", "chan", "stringer", "typed-nil-ptr", "typed-nil-map", "typed-nil-slice", "nested-ptr", "array-of-struct", "slice-of-nil", "big-uint", "complex", "bytes", "error", "deep"}
+var specials = []string{"cyclic-ptr", "cyclic-2", "cyclic-in-map", "cyclic-via-value-field", "cyclic-via-value-slice", "cyclic-via-interface", "cyclic-via-embedded", "cyclic-via-map-of-ptr", "cyclic-via-array", "cyclic-value-root", "embedded-nil-ptr", "embedded-nil-ptr-ptr", "slice-of-embedded-nil-ptr", "map-of-embedded-nil-ptr", "wrapped-embedded-nil-ptr", "panicking-stringer", "nil-url", "nil-valrecv-stringer", "slice-with-nil-stringer", "map-with-nil-stringers", "unexported", "unexported-ptr", "map-int-keys", "map-uint8-keys", "map-uint-keys", "map-uint64-keys", "map-uintptr-keys", "map-int8-keys", "map-named-int-keys", "map-named-string-keys", "map-named-string-keys-any", "map-stringer-keys", "map-bool-keys", "map-float-keys", "map-rune-byte-keys", "map-struct-keys", "map-any-keys", "func", "chan", "stringer", "typed-nil-ptr", "typed-nil-map", "typed-nil-slice", "nested-ptr", "array-of-struct", "slice-of-nil", "big-uint", "complex", "bytes", "error", "deep"}
 
 func dataOf(c Case) any {
 	m := map[string]any{}
@@ -959,6 +967,28 @@ func TestProp(t *testing.T) {
 				c.Data = nil
 				each("misuse", c, "family=api-misuse", "no-data")
 			}
+		}
+	}
+
+	// family 6: file spellings at the edges of what the loader parses: front matter only, no
+	// final newline, CRLF, byte-order mark, empty and blank files - as the page, as an included
+	// component and as a layout
+	spellings := []string{"", "\n", " ", "---", "---\n", "---\n---", "---\n---\n", "---\ntitle: Hello\n---", "---\r\ntitle: Hello\r\n---", "---\r\ntitle: Hello\r\n---\r\n", "---\r\n---\r\n<p>x</p>", "---\ntitle: Hello\n---<p>x</p>", "---\ntitle: Hello\n--- \n<p>x</p>", "\xef\xbb\xbf---\ntitle: Hello\n---\n<p>{{ title }}</p>", "\xef\xbb\xbf<p>x</p>", "----\ntitle: x\n----\n<p>x</p>", "---\n- a\n- b\n---\n<p>x</p>", "---\ntitle: [unclosed\n---\n<p>x</p>", "---\n---\n---\n---", "<p>no newline at the end</p>", "\r\n\r\n<p>x</p>\r\n", "---\nlayout: base\n---", "\x00", "---\n\x00\n---\n"}
+	for wi, wsrc := range spellings {
+		for role := 0; role < 3; role++ {
+			files := map[string]string{"page.vuego": `<p>page {{ title }}</p><template include="c.vuego"></template>`, "c.vuego": `<i>c</i>`, "layouts/base.vuego": `<html><body><div v-html="content"></div></body></html>`}
+			switch role {
+			case 0:
+				files["page.vuego"] = wsrc
+			case 1:
+				files["c.vuego"] = wsrc
+			case 2:
+				files["layouts/base.vuego"] = wsrc
+			}
+			c := Case{Files: files, Entry: entries[(wi+role)%len(entries)], Data: map[string]vals.V{"title": vals.Str("t")}}
+			each("spelling", c, "family=file-spelling", []string{"as-page", "as-component", "as-layout"}[role])
+			c.Entry = entries[(wi+role+2)%len(entries)]
+			each("spelling", c, "family=file-spelling")
 		}
 	}
 
